@@ -280,6 +280,7 @@ func init() {
 			{Name: "tokenlens", QShards: 2, TShards: 4, Run: c11TokenLens},
 			{Name: "fieldcounts", QShards: 2, TShards: 4, Run: c11FieldCounts},
 			{Name: "foreignbytes", QShards: 3, TShards: 6, Run: c11ForeignBytes},
+			{Name: "namesbyseq", QShards: 2, TShards: 4, Run: c11NamesBySeq},
 			{Name: "parallel", Race: true, QShards: 2, TShards: 6, Run: codecParallel("fasta", "fastq", "sam", "samh", "bed", "newick")},
 			{Name: "histories", QShards: 2, TShards: 6, Run: codecHistories("fasta", "fastq", "sam", "samh", "bed", "newick")},
 			{Name: "fuzz", Thorough: true, Run: c11Fuzz},
@@ -814,6 +815,49 @@ func c11ForeignBytes(c *Ctx) {
 				k.Nontrivial([]byte(fmt.Sprint("foreign", col, l)))
 			})
 			idx++
+		}
+	}
+}
+
+// c11NamesBySeq: accepted records are fixed points — also the LONG ones, for
+// every name length. FASTA and FASTQ records with a sequence longer than the
+// writers' and readers' buffers (33 000, 40 000, 70 001 bases; thorough also
+// 140 000) under a name of EVERY length 0..200 (thorough 0..600): a writer that
+// assembles lines in a fixed scratch buffer tiles it exactly for one residue
+// class of name lengths only when the record is long enough to fill it.
+func c11NamesBySeq(c *Ctx) {
+	seqLens := []int{33000, 40000, 70001}
+	maxName := 200
+	if c.Thorough {
+		seqLens = append(seqLens, 140000)
+		maxName = 600
+	}
+	idx := int64(0)
+	for _, f := range []string{"fasta", "fastq"} {
+		for _, sl := range seqLens {
+			for nl := 0; nl <= maxName; nl++ {
+				c.Case(idx, func(k *K) {
+					r := k.Rand()
+					name := randSeq(r, []byte("abcXYZ019 |._"), nl)
+					seq := randSeq(r, []byte("ACGTN"), sl)
+					var x []byte
+					if f == "fasta" {
+						x = append(append(append(append([]byte(">"), name...), '\n'), seq...), '\n')
+					} else {
+						x = append(append(append(append([]byte("@"), name...), '\n'), seq...), "\n+\n"...)
+						x = append(append(x, bytes.Repeat([]byte("I"), sl)...), '\n')
+					}
+					k.Input("format", f)
+					k.Input("name_length", nl)
+					k.Input("sequence_length", sl)
+					decodeTotal(k, f, x)
+					k.Count("inputs_"+f, 1)
+					k.Count("long_records_by_name_length", 1)
+					k.Evals(1)
+					k.Nontrivial([]byte(f), []byte(fmt.Sprint(nl, sl)))
+				})
+				idx++
+			}
 		}
 	}
 }
